@@ -516,6 +516,10 @@ func (r *Raft) setCommitIndex(index uint64) (configCommitted bool) {
 		println(r, "commitIndex", r.commitIndex)
 	}
 	if !r.configs.IsCommitted() && r.configs.Latest.Index <= r.commitIndex {
+		// were we part of the cluster, as per the config that was committed so far.
+		// a node that is being added sees older configs which do not have it, as it
+		// catches up. those must not be taken as its removal
+		_, wasMember := r.configs.Committed.Nodes[r.nid]
 		r.commitConfig()
 		configCommitted = true
 		if r.state == Leader && !r.configs.Latest.isVoter(r.nid) {
@@ -527,7 +531,7 @@ func (r *Raft) setCommitIndex(index uint64) (configCommitted bool) {
 			r.setState(Follower)
 			r.setLeader(0)
 		}
-		if r.shutdownOnRemove {
+		if r.shutdownOnRemove && wasMember {
 			if _, ok := r.configs.Latest.Nodes[r.nid]; !ok {
 				r.doClose(ErrNodeRemoved)
 			}
